@@ -73,8 +73,34 @@ pub fn gen_seed_bytes(rng: &mut Prng, n: usize) -> Vec<u8> {
     }
 }
 
+/// The documented replacement of the all-zero seed, as explicit bytes: a perfectly valid seed /
+/// source block that collides with any "was this the fallback?" sentinel test.
+pub fn zero_replacement_bytes(kind: Kind) -> Option<Vec<u8>> {
+    let n = kind.seed_len();
+    if kind == Kind::XorShift {
+        Some((0..n).map(|i| 0x0BAD_5EEDu32.to_le_bytes()[i % 4]).collect())
+    } else if kind.linear() {
+        // first n bytes of the SplitMix64 stream started at 0 (mix64(z) = finalizer(z + PHI))
+        let mut v = Vec::new();
+        let mut z = 0u64;
+        while v.len() < n {
+            v.extend_from_slice(&crate::prng::mix64(z).to_le_bytes());
+            z = z.wrapping_add(0x9e37_79b9_7f4a_7c15);
+        }
+        v.truncate(n);
+        Some(v)
+    } else {
+        None
+    }
+}
+
 pub fn gen_source(rng: &mut Prng, kind: Kind) -> SourceSpec {
     let n = kind.from_rng_len();
+    if rng.chance(1, 30) {
+        if let Some(b) = zero_replacement_bytes(kind) {
+            return SourceSpec { zero_run: 0, prefix: b, key: rng.u64(), fault: None };
+        }
+    }
     let prefix = match rng.below(4) {
         0 => Vec::new(),
         1 => gen_seed_bytes(rng, n.min(64)),
@@ -91,6 +117,11 @@ pub fn gen_long_zero_source(rng: &mut Prng) -> SourceSpec {
 
 /// A seed through any infallible route.
 pub fn gen_seed(rng: &mut Prng, kind: Kind) -> SeedSpec {
+    if rng.chance(1, 40) {
+        if let Some(b) = zero_replacement_bytes(kind) {
+            return SeedSpec::Bytes(b);
+        }
+    }
     match rng.below(10) {
         0 | 1 => SeedSpec::U64(rng.edge_u64()),
         2 => SeedSpec::FromRng(gen_source(rng, kind)),
